@@ -8,7 +8,7 @@ WT=/tmp/confirm-$$
 git -C /repo worktree add -q --detach "$WT" HEAD || exit 3
 cleanup() { git -C /repo worktree remove --force "$WT" 2>/dev/null; rm -rf "$WT"; }
 trap cleanup EXIT
-cd "$WT"
+cd "$WT"; cp /repo/Cargo.lock . 2>/dev/null
 cp "$SEED/$DEMO" "$TDIR/$DEMO"
 T="${DEMO%.rs}"
 echo "== demo on unmodified tree"
